@@ -32,7 +32,7 @@ Import ListNotations.
 Open Scope Z_scope.
 
 (* ------------------------------------------------------------------ the immutable file *)
-Record shdr_raw := mk_shdr { sh_name : Z; sh_size_f : Z; sh_pid : Z; sh_eff : effects }.
+Record shdr_raw := mk_shdr { sh_name : Z; sh_size_f : Z; sh_pid : Z; sh_eff : effects; sh_ty : Z (* sh_type *) }.
 Record sym_raw := mk_sym { sy_name : Z; sy_pid : Z }.
 Record dyn_raw := mk_dyn { dy_null : bool; dy_pid : Z; dy_eff : effects }.
 Record phdr_raw := mk_phdr { ph_pid : Z; ph_eff : effects }.
@@ -732,6 +732,18 @@ Section Machine.
     apply_eff (sh_eff h) ;;;
     ret [name; sh_pid h].
 
+  (* ELFFile.get_section(n, type):
+       section_header = self._get_section_header(n)
+       if type and section_header.sh_type not in type: raise ELFError("Unexpected section type ...")
+       return self._make_section(section_header) *)
+  Definition get_section_typed (n ty : Z) : M (list Z) :=
+    h <- get_section_header n ;;
+    if negb (sh_ty h =? ty) then fail EElf
+    else
+      name <- get_string (p_shstr_base P) (sh_name h) ;;
+      apply_eff (sh_eff h) ;;;
+      ret [name; sh_pid h].
+
   (* ELFFile.num_sections *)
   Definition num_sections : M Z :=
     if p_shoff P =? 0 then ret 0
@@ -986,6 +998,10 @@ Section Machine.
     | EString off => v <- get_string (p_strtab_base P) off ;; ret (AVals [v])
     | ENumTags => n <- num_tags ;; ret (AVals [n])
     | EGetTag n => t <- get_tag n ;; ret (AVals t)
+    | ESectionTyped n ty => sec <- get_section_typed n ty ;; ret (AVals sec)
+    (* ELFFile.get_dwarf_info() builds a NEW DWARFInfo over new copies of the section contents: nothing the
+       DWARFInfo handed out earlier can see *)
+    | RefetchDwarf => ret ADone
     end.
 
   Definition step (s : state) (o : op) : state * answer :=
